@@ -5,6 +5,7 @@ import (
 	"fmt"
 	"os"
 	"path/filepath"
+	"regexp"
 	"sort"
 	"strings"
 	"time"
@@ -108,9 +109,9 @@ func tearFiles(r *h.Rng, dir string, events []hookEvent, mode string, startSizes
 func checkWriteOrder(events []hookEvent) string {
 	// per acknowledged bulk: the docs write, a docs fsync covering it, the meta write, a meta fsync covering it, the ack - in this order
 	type wr struct {
-		seq      int64
-		file     string
-		end      int64
+		seq  int64
+		file string
+		end  int64
 	}
 	var pendingDocs, pendingMeta *wr
 	var syncs []hookEvent
@@ -157,7 +158,167 @@ func checkWriteOrder(events []hookEvent) string {
 	return ""
 }
 
+// ---- syscall-level ordering monitor (strace): independent of the hooks, so a hook that was moved or kept while the
+// fsync it reports was dropped cannot fool it. The phase writes its "ack k" events with write(2) to the event log, which
+// puts the acknowledgements into the same syscall sequence as pwrite64/fsync on the fraction files.
+
+var (
+	stOpenRe = regexp.MustCompile(`^(\d+)\s+openat\([^,]+, "([^"]+)".*\) = (\d+)`)
+	stCallRe = regexp.MustCompile(`^(\d+)\s+(pwrite64|fsync|fdatasync|write)\((\d+)(.*)$`)
+	stResRe  = regexp.MustCompile(`^(\d+)\s+<\.\.\. (pwrite64|fsync|fdatasync|write) resumed>.*= (-?\d+)`)
+	stAckRe  = regexp.MustCompile(`"\d+ ack (\d+)\\n"`)
+)
+
+// checkSyscallOrder parses an strace log of one ingest process. Lines of strace -f appear in an order that respects every
+// happens-before edge of the traced program (a thread continues past a syscall entry/exit only after strace logged it), so
+// the following counting invariants are sound under concurrent bulks as well. A pwrite64 on file F is "covered" once an
+// fsync(F) that STARTED after the pwrite completed has itself completed. Every bulk writes one docs block and one meta block:
+//   - when the j-th pwrite64 to a .meta file starts, at least j pwrites to .docs files are covered;
+//   - when the n-th "ack" is written, at least n pwrites to .meta files (and n to .docs files) are covered.
+func checkSyscallOrder(tracePath string) (string, int) {
+	b, err := os.ReadFile(tracePath)
+	if err != nil {
+		return "", 0
+	}
+	fdPath := map[string]string{}
+	completed := map[string]int{} // file -> pwrites completed
+	covered := map[string]int{}   // file -> pwrites covered by a completed fsync
+	type pend struct {
+		file string
+		snap int
+	}
+	pendW := map[string]string{}
+	pendS := map[string]pend{}
+	sum := func(m map[string]int, suffix string) int {
+		n := 0
+		for f, c := range m {
+			if strings.HasSuffix(f, suffix) {
+				n += c
+			}
+		}
+		return n
+	}
+	acks, metaStarts := 0, 0
+	for _, ln := range strings.Split(string(b), "\n") {
+		if m := stOpenRe.FindStringSubmatch(ln); m != nil {
+			fdPath[m[3]] = m[2]
+			continue
+		}
+		if m := stCallRe.FindStringSubmatch(ln); m != nil {
+			pid, call, fd, rest := m[1], m[2], m[3], m[4]
+			file := fdPath[fd]
+			unfinished := strings.Contains(rest, "<unfinished")
+			switch call {
+			case "pwrite64":
+				if !strings.HasSuffix(file, ".docs") && !strings.HasSuffix(file, ".meta") {
+					continue
+				}
+				if strings.HasSuffix(file, ".meta") {
+					metaStarts++
+					if c := sum(covered, ".docs"); c < metaStarts {
+						return fmt.Sprintf("syscall trace: meta block #%d is written while only %d docs blocks are covered by a completed fsync", metaStarts, c), acks
+					}
+				}
+				if unfinished {
+					pendW[pid] = file
+				} else {
+					completed[file]++
+				}
+			case "fsync", "fdatasync":
+				if unfinished {
+					pendS[pid] = pend{file, completed[file]}
+				} else if strings.Contains(rest, "= 0") {
+					covered[file] = max(covered[file], completed[file])
+				}
+			case "write":
+				if a := stAckRe.FindStringSubmatch(rest); a != nil {
+					acks++
+					cd, cm := sum(covered, ".docs"), sum(covered, ".meta")
+					if cd < acks || cm < acks {
+						return fmt.Sprintf("syscall trace: acknowledgement #%d (bulk %s) is issued while only %d docs / %d meta blocks are covered by a completed fsync", acks, a[1], cd, cm), acks
+					}
+				}
+			}
+			continue
+		}
+		if m := stResRe.FindStringSubmatch(ln); m != nil {
+			pid := m[1]
+			switch m[2] {
+			case "pwrite64":
+				if f, ok := pendW[pid]; ok {
+					completed[f]++
+					delete(pendW, pid)
+				}
+			case "fsync", "fdatasync":
+				if p, ok := pendS[pid]; ok && m[3] == "0" {
+					covered[p.file] = max(covered[p.file], p.snap)
+					delete(pendS, pid)
+				}
+			}
+		}
+	}
+	return "", acks
+}
+
+func c01Strace(w *h.W, batch int) {
+	r := w.Rng(77)
+	work := w.Sub("strace")
+	dir := filepath.Join(work, "data")
+	os.MkdirAll(dir, 0o755)
+	spec := phaseSpec{Dir: dir, Work: work, Out: filepath.Join(work, "out.jsonl"), Events: filepath.Join(work, "events.log")}
+	nb := r.Range(3, 8)
+	par := batch%16 == 15
+	if par {
+		nb = r.Range(12, 30)
+		spec.DelaySeed = r.U64() | 1 // seeded delays at the writer hooks spread the concurrent writes over the fsync windows
+	}
+	for i := 0; i < nb; i++ {
+		c := gen.MakeCorpus(r, gen.CorpusOpt{N: r.Range(1, 40), Vocab: 3, MIDSpread: 100, MaxToks: 2, BaseMID: gen.T0 + uint64(i)*1000, Tag: fmt.Sprintf("st%d", i)})
+		writeBulkFile(work, i, c.Docs)
+	}
+	for i := 0; i < nb; {
+		if n := min(nb-i, r.Range(2, 6)); par {
+			spec.Steps = append(spec.Steps, phaseStep{Op: "bulk_par", Bulk: i, N: n})
+			i += n
+		} else {
+			spec.Steps = append(spec.Steps, phaseStep{Op: "bulk", Bulk: i})
+			i++
+		}
+	}
+	specPath := filepath.Join(work, "spec.json")
+	writeSpec(specPath, spec)
+	desc := map[string]any{"part": "strace", "bulks": nb, "concurrent": par}
+	if !w.Begin(desc) {
+		return
+	}
+	trace := filepath.Join(work, "trace.txt")
+	res := h.SpawnPhaseWrapped(work, []string{"strace", "-f", "-o", trace, "-e", "trace=pwrite64,fsync,fdatasync,write,openat"}, "store", 3*time.Minute, nil, specPath)
+	evs := readPhaseOut(spec.Out)
+	acked := 0
+	for _, e := range evs {
+		if e.Ev == "ack" {
+			acked++
+		}
+	}
+	bad, seen := checkSyscallOrder(trace)
+	w.Count("strace_acks_checked", int64(seen))
+	switch {
+	case res.TimedOut:
+		w.Inconclusive("watchdog: strace phase did not finish")
+	case bad != "":
+		w.Violation("C01:syscall-order", map[string]any{"diff": bad, "case": desc})
+	case acked != nb || seen != nb:
+		w.Inconclusive(fmt.Sprintf("strace monitor saw %d acknowledgements, the phase reported %d of %d (exit %d)", seen, acked, nb, res.ExitCode))
+	default:
+		w.Held(fmt.Sprintf("strace|%d|%v", nb, par), true)
+	}
+}
+
 func runC01(w *h.W, batch int) {
+	if batch%8 == 7 {
+		c01Strace(w, batch)
+		return
+	}
 	r := w.Rng()
 	nHist := 4
 	for hi := 0; hi < nHist; hi++ {
